@@ -1,8 +1,8 @@
 package harness
 
 import (
-	"os"
 	"fmt"
+	"os"
 	"sort"
 	"strings"
 
@@ -11,26 +11,37 @@ import (
 
 // A Case is one drawn execution: plan + oracle.
 type Case struct {
-	Plan    *Plan
-	Metas   []*ClientMeta
-	Oracle  func(w *World, c *Case)
-	Mid     func(w *World, c *Case) // after Run, before Drain
-	Direct  func(c *Case) []Violation // engines B/C: no world
-	Summary string
-	Aux     any
-	Nontrivial func(w *World, c *Case) bool
-	DirectKey  string // engines B/C: key for distinct counting
+	Plan        *Plan
+	Metas       []*ClientMeta
+	Oracle      func(w *World, c *Case)
+	Mid         func(w *World, c *Case)   // after Run, before Drain
+	Direct      func(c *Case) []Violation // engines B/C: no world
+	Summary     string
+	Aux         any
+	Nontrivial  func(w *World, c *Case) bool
+	DirectKey   string // engines B/C: key for distinct counting
 	DirectStats map[string]int
 }
 
 type CheckDef struct {
-	ID    string
-	Draw  func(t *rapid.T) *Case
-	Level string
-	Engine string // "A" simproxy, "B" simstream, "C" simfs
-	Rule  string
-	Real  []string
-	Stub  []string
+	ID       string
+	Draw     func(t *rapid.T) *Case
+	Level    string
+	Engine   string // "A" simproxy, "B" simstream, "C" simfs
+	Rule     string
+	Real     []string
+	Stub     []string
+	Enum     *EnumDef
+	EnumRule string
+}
+
+// EnumDef: a finite, indexable case space (fault enumeration).
+type EnumDef struct {
+	// Params measures what the enumeration depends on (session lengths, op counts)
+	// by running the fault-free sessions; must be deterministic.
+	Params func(run func(c *Case) *World) map[string]int
+	Count  func(params map[string]int) int
+	Case   func(params map[string]int, i int) *Case
 }
 
 var Checks = map[string]*CheckDef{}
